@@ -340,7 +340,7 @@ def c11(res):
     last = None
     for rec, t, prev, d, vars_ in Walk(res):
         if rec["op"] != "get" or prev is None: continue
-        k = t[2]; a = t[3:]
+        k = t[1]; a = t[2:]
         D = prev
         def oor(): return ("T", "out_of_range")
         def inv(): return ("T", "invalid_argument")
@@ -401,6 +401,7 @@ def c11(res):
         if exp is None: continue
         got = rec["res"]
         want = "%s %s" % exp
+        out.append(("_c11_lookups_checked_against_container", {}, ""))
         if got != want:
             out.append(("lookup", {"op": rec["n"], "kind": k}, "look-up `%s` returned %r, the container content says %r" % (" ".join(t[1:])[:80], got, want)))
     return out
